@@ -1,12 +1,12 @@
 SPECIFICATION Spec
 CONSTANTS
   NSess = 1
-  NMsg = 3
-  MaxRtx = 1
+  NMsg = 2
+  MaxRtx = 2
   Nstart = 1
   AckMin = 2
   AckMax = 3
-  MaxTime = 10
+  MaxTime = 14
   MaxDup = 1
   SubmitUntil = 1
 INVARIANTS NstartBoundI OneOutcomeI NeverLateI OneNackI CountBoundI ConcludeOnceI HeldFifoI
